@@ -9,12 +9,34 @@ Oracle: ``jsonschema.Draft7Validator(docs/schema.json).iter_errors(json.loads(pk
 exact place of a mismatch every object of the dump is additionally validated on its own (members emptied): JSON pointer in
 the dump + path in the schema are reported.  ``D_clean`` = statically loaded regular packages with the parser off: any
 error there is a VIOLATION; elsewhere an error must match a listed mechanism predicate.
+
+Working directories (round 6): a full dump carries location-dependent members (``relative_filepath`` is relative to the
+process' *current working directory*, ``relative_package_filepath`` to the package's search path), so "the full dump of any
+package loaded from files on disk" quantifies over where the process stands as well.  Every generated tree is written into
+a generated directory layout ``<base>/<ancestor>/<parent>/<search path>/<package>``, loaded from one working directory with
+one spelling of the search path (absolute, relative, with redundant components, through a symbolic link, trailing slash)
+and then dumped from several working directories chosen *relative to where the package lies*: the search path, another
+search path, its parent, an ancestor, the file-system root, inside the package, inside a sub-package, a non-package child,
+an unrelated directory, symbolic links to the search path / its parent, and siblings whose NAME is a proper prefix or an
+extension of the name of the search path, of its parent, of the package or of a module file's stem (directories that share a
+character-wise prefix with the files without containing them).  Oracles, all independent of Griffe: (1) every dump exists -
+``as_json(full=True)`` never raises; (2) the first one is validated object by object, one more as a whole document and must be
+exactly as (in)valid; (3) every dump equals the first one once ``relative_filepath`` is removed - nothing else may depend on
+the working directory; (4) reference model over ``os.path`` for the location members of every object: ``filepath`` is
+absolute and names a file the harness wrote, ``relative_filepath`` = ``relpath(filepath, getcwd())`` when the file lies
+below the working directory *component-wise* (``os.path.commonpath``), the absolute path otherwise (first portion below
+the working directory for a namespace package), ``relative_package_filepath`` = path relative to the search path the harness
+put the file in.  Library packages (stdlib, griffe) are dumped from existing directories only (search path, parent, root,
+inside, unrelated).
 """
 from __future__ import annotations
 
 import json
 import os
 import random
+import sys
+import tempfile
+from contextlib import contextmanager
 
 from vf.checks import c08
 from vf.core.util import case_watchdog
@@ -26,28 +48,40 @@ ANCHORS = ["encoders.py", "docstrings/models.py"]
 RULE = ("documents = full dumps of: generated rich packages (see C08; static flavour by the visitor, importable flavour by "
         "visitor and inspector), namespace packages over two search paths, stdlib modules/packages, griffe/_griffe; x aliases "
         "{unresolved, resolved} x docstring parser {none, google, numpy, sphinx}. distinct = digest of (files, package, "
-        "options); non-trivial = the dump has >=3 object kinds, >=1 alias and >=3 expression classes")
+        "options); non-trivial = the dump has >=3 object kinds, >=1 alias and >=3 expression classes. Every tree lies in a "
+        "generated directory layout and is dumped from 7 (library packages: 3-4 existing ones) working directories placed relative to the "
+        "package (at / above / inside / beside it, name-prefix and name-extension siblings, symlinks, root, unrelated), "
+        "after being loaded from one of them with one of 5 spellings of the search path")
 LEVEL_TEXT = ("Every document is validated as a whole with jsonschema (Draft 7) against the schema file of the checked tree, "
               "and object by object to locate mismatches; the evidence lists which schema branches the documents exercised "
               "(object kinds, optional keys present and absent, value shapes of every annotation slot, docstring section "
-              "kinds, expression classes).")
+              "kinds, expression classes).  The location members of every object of every dump are compared with an "
+              "os.path reference model, and dumps of one tree from different working directories must agree on everything "
+              "but `relative_filepath`.")
 LEVEL_NOTE = ("trusted: the jsonschema package (Draft7Validator); per-object validation (members emptied) is equivalent to "
               "whole-document validation because `members` is the only recursive position of the schema — both are run and "
               "a disagreement makes the case inconclusive")
 TECHNIQUE = "runtime monitoring: schema-validation oracle (jsonschema) over really produced dumps, with schema-branch coverage evidence"
 REQUIRED_COUNTERS = ["documents_validated", "objects_validated", "static_documents", "dynamic_documents", "resolved_documents",
                      "parsed_docstring_documents", "namespace_documents", "stdlib_documents", "own_package_documents",
-                     "clean_domain_documents_valid"]
+                     "clean_domain_documents_valid", "location_dumps_compared", "location_dumps_from_name_prefix_sibling",
+                     "location_dumps_from_name_extension_sibling", "location_dumps_from_inside_the_package",
+                     "location_dumps_through_symlink", "trees_loaded_with_respelled_search_path", "location_members_checked_against_model",
+                     "location_dumps_validated", "top_level_file_module_documents"]
 EXHAUSTIVE = {"quick": False, "thorough": False}
-ASSUMPTIONS = ["a full dump that cannot be produced at all (as_json raises) is C08's business and is skipped here, counted",
-               "packages are dumped from a working directory above their search paths"]
+ASSUMPTIONS = ["the working directory exists while dumping (a removed working directory is outside the domain)",
+               "directories used as working directories inside a search path or a package are created after loading, so that "
+               "they cannot change what the finder sees",
+               "findings listed under C08 about full dumps that cannot be produced (same observation: as_json(full=True) raises) "
+               "explain the same mechanism here when their status is known"]
 SHARD_TIMEOUT = {"quick": 900, "thorough": 7200}
 
 ID_INSPECTED_LINENO = "C09-inspected-lineno-null-or-missing"
 ID_NAMESPACE = "C09-namespace-filepath-list"
 ID_SECTION_KIND = "C09-schema-lacks-docstring-section-kinds"
 ID_SECTION_VALUE = "C09-schema-section-value-object"
-ALL_IDS = [ID_INSPECTED_LINENO, ID_NAMESPACE, ID_SECTION_KIND, ID_SECTION_VALUE]
+ID_TOP_MODULE = "C09-relative-package-filepath-of-top-level-file-module"
+ALL_IDS = [ID_INSPECTED_LINENO, ID_NAMESPACE, ID_SECTION_KIND, ID_SECTION_VALUE, ID_TOP_MODULE, c08.ID_FULL_NS_CWD, c08.ID_FULL_BUILTIN]
 PARSERS = [None, None, "google", "numpy", "sphinx"]
 _SCHEMA = None
 
@@ -185,14 +219,25 @@ def classify(case: dict, obj: dict, err) -> str | None:  # noqa: ANN001
     return None
 
 
-def judge(rec, case: dict, mod, tags: tuple = ()) -> None:  # noqa: ANN001, C901, PLR0912
-    try:
-        text = mod.as_json(full=True)
-    except Exception as exc:  # noqa: BLE001
-        rec.skip(f"full dump could not be produced ({type(exc).__name__}): C08's business")
-        rec.count("full_dump_failures")
-        return
-    doc = json.loads(text)
+def classify_dump_failure(exc: BaseException, mod) -> str | None:  # noqa: ANN001
+    """Mechanism predicate over (exception of as_json(full=True), loaded tree, working directory)."""
+    from _griffe.exceptions import BuiltinModuleError
+
+    if type(exc) is ValueError and str(exc).startswith("No directory in") and c08.namespace_outside_cwd(mod):
+        return c08.ID_FULL_NS_CWD
+    if isinstance(exc, BuiltinModuleError) and c08.has_builtin_module(mod):
+        return c08.ID_FULL_BUILTIN
+    return None
+
+
+def dump_failure(exc: BaseException, mod, where: str = "") -> c08.Problem:  # noqa: ANN001
+    return c08.Problem(f"no full dump at all: as_json(full=True) raised {type(exc).__name__}{where}",
+                       {"exception": f"{type(exc).__name__}: {exc}"[:300], "cwd": os.getcwd()}, "a JSON document that validates against the schema",
+                       classify_dump_failure(exc, mod))
+
+
+def validate(rec, case: dict, doc: dict) -> tuple[list, bool, str | None, bool]:  # noqa: ANN001
+    """Object-by-object + whole-document validation of one dump: (problems, non-trivial, inconclusive reason, whole document valid)."""
     stats = c08.dump_stats(doc)
     nontrivial = len(stats["kinds"]) >= 3 and stats["aliases"] >= 1 and len(stats["classes"]) >= 3
     for k in stats["classes"]:
@@ -228,12 +273,50 @@ def judge(rec, case: dict, mod, tags: tuple = ()) -> None:  # noqa: ANN001, C901
             problems.append(c08.Problem(f"whole-document validation fails at {pointer(best.absolute_path)}: {best.message[:160]}",
                                         {"pointer": pointer(best.absolute_path)}, {"schema_path": pointer(best.absolute_schema_path)}))
         else:
-            rec.inconclusive(case, "per-object validation reports errors the whole-document validation does not")
-            return
-    clean = case.get("agent") == "static" and not case.get("parser") and case.get("source") != "namespace"
-    if not problems and clean:
+            return problems, nontrivial, "per-object validation reports errors the whole-document validation does not", False
+    return problems, nontrivial, None, whole_first is None
+
+
+def is_clean(case: dict) -> bool:
+    return case.get("agent") == "static" and not case.get("parser") and case.get("source") != "namespace"
+
+
+def judge(rec, case: dict, mod, tags: tuple = ()) -> None:  # noqa: ANN001
+    """One tree, one dump, from the working directory the process is in (cases without a directory layout)."""
+    try:
+        text = mod.as_json(full=True)
+    except Exception as exc:  # noqa: BLE001
+        rec.count("full_dump_failures")
+        _report(rec, case, [dump_failure(exc, mod)], False, tags)
+        return
+    problems, nontrivial, inc, _valid = validate(rec, case, json.loads(text))
+    if inc:
+        rec.inconclusive(case, inc)
+        return
+    if not problems and is_clean(case):
         rec.count("clean_domain_documents_valid")
     _report(rec, case, problems, nontrivial, tags)
+
+
+FOREIGN_IDS = (c08.ID_FULL_NS_CWD, c08.ID_FULL_BUILTIN)   # listed under C08, same observation (no full dump at all)
+
+
+def _listed_known(fid: str | None) -> bool:
+    from vf.core.rec import known_findings
+
+    entry = known_findings().get(fid) if fid else None
+    if entry is None or entry.get("status") != "known":
+        return False
+    return entry.get("property") == PROP or (fid in FOREIGN_IDS and entry.get("property") == "C08")
+
+
+def _histogram(rec, fid: str, case: dict, p) -> None:  # noqa: ANN001
+    from vf.core.rec import jsonable
+
+    k = rec.known.setdefault(fid, {"count": 0, "first": None})
+    k["count"] += 1
+    if k["first"] is None:
+        k["first"] = {"input": jsonable(case), "what": p.what, "observed": jsonable(p.observed), "expected": jsonable(p.expected)}
 
 
 def _report(rec, case: dict, problems: list, nontrivial: bool, tags: tuple) -> None:  # noqa: ANN001
@@ -245,46 +328,388 @@ def _report(rec, case: dict, problems: list, nontrivial: bool, tags: tuple) -> N
     for p in problems:
         if p.finding:
             rec.count("explained_by:" + p.finding)
-    rec.fail(case, pick.what, observed=pick.observed, expected=pick.expected, finding=pick.finding, nontrivial=nontrivial, tags=tags,
-             tried=ALL_IDS)
+    if pick.finding in FOREIGN_IDS and _listed_known(pick.finding):
+        # the recorder only accepts findings listed under this property; these are listed (status known) under C08
+        rec.ok(case, nontrivial=nontrivial, tags=tags)
+        _histogram(rec, pick.finding, case, pick)
+    else:
+        rec.fail(case, pick.what, observed=pick.observed, expected=pick.expected, finding=pick.finding, nontrivial=nontrivial, tags=tags,
+                 tried=ALL_IDS)
     if not unexplained:
-        from vf.core.rec import jsonable, known_findings
-
         for fid in sorted({p.finding for p in problems if p.finding != pick.finding}):
             p = next(q for q in problems if q.finding == fid)
-            entry = known_findings().get(fid)
-            if entry is not None and entry.get("property") == PROP and entry.get("status") == "known":
-                k = rec.known.setdefault(fid, {"count": 0, "first": None})
-                k["count"] += 1
-                if k["first"] is None:
-                    k["first"] = {"input": jsonable(case), "what": p.what, "observed": jsonable(p.observed), "expected": jsonable(p.expected)}
+            if _listed_known(fid):
+                _histogram(rec, fid, case, p)
             else:
                 rec.fail({**case, "also": fid}, p.what, observed=p.observed, expected=p.expected, finding=fid, nontrivial=False,
                          tags=("secondary",), tried=ALL_IDS)
 
 
-def run_case(rec, case: dict) -> None:  # noqa: ANN001
+# -- working directories ----------------------------------------------------------------------------------------------
+PREFIX_POSITIONS = ("search-path-name-prefix", "parent-name-prefix", "package-name-prefix", "module-stem-dir")
+EXTENSION_POSITIONS = ("search-path-name-extension", "parent-name-extension", "package-name-extension")
+INSIDE_POSITIONS = ("inside-package", "inside-subpackage", "non-package-child")
+SYMLINK_POSITIONS = ("symlink-to-search-path", "symlink-to-parent")
+OTHER_POSITIONS = ("search-path", "other-search-path", "parent", "ancestor", "fs-root", "unrelated")
+POSITIONS = OTHER_POSITIONS + INSIDE_POSITIONS + SYMLINK_POSITIONS + PREFIX_POSITIONS + EXTENSION_POSITIONS
+LOAD_POSITIONS = ("search-path", "parent", "ancestor", "fs-root", "unrelated", "inside-package", "symlink-to-search-path",
+                  "search-path-name-prefix", "parent-name-prefix", "search-path-name-extension", "parent-name-extension")
+NAMED_POSITIONS = ("search-path", "parent", "fs-root", "inside-package", "unrelated")
+SPELLINGS = ("absolute", "relative", "redundant", "symlink", "trailing-slash")
+DIR_STEMS = ("lib", "site", "src", "work", "venv.d", "my libs", "b\u00fcro", "a+b", "x[1]", "site-packages", "py", "r0")
+DIR_EXTENSIONS = ("-libs", "2", ".d", "_", " ", "x", ".py", "-stubs")
+
+
+def gen_layout(rng: random.Random, n_roots: int) -> dict:
+    """Names of the directories a tree is placed in: <base>/<ancestor>/<parent>/<root i>; how sibling names are derived."""
+    stems = rng.sample(DIR_STEMS, 3)
+    roots = [stems[0]]
+    for i in range(1, n_roots):
+        # a further search path whose name extends the first one's (the first search path is then itself a name-prefix sibling
+        # of the others), or an unrelated name
+        roots.append(stems[0] + rng.choice(("-b", "2", ".more")) + str(i) if rng.random() < 0.5 else f"{rng.choice(DIR_STEMS)}.{i}")
+    return {"chain": [stems[1], stems[2]], "roots": roots, "cut": rng.random(), "extension": rng.choice(DIR_EXTENSIONS),
+            "package_extension": rng.choice(DIR_EXTENSIONS), "stem_of": rng.random()}
+
+
+def located_case(rng: random.Random, case: dict) -> dict:
+    """Add a directory layout, the place and spelling the tree is loaded from/with and the working directories it is dumped from."""
+    lay = gen_layout(rng, len(case["roots"]))
+    picks = [rng.choice(PREFIX_POSITIONS), rng.choice(EXTENSION_POSITIONS), rng.choice(INSIDE_POSITIONS + SYMLINK_POSITIONS)]
+    rest = [p for p in POSITIONS if p not in picks]
+    picks += rng.sample(rest, 4)
+    rng.shuffle(picks)
+    return {**case, "layout": lay, "load_from": rng.choice(LOAD_POSITIONS), "spelling": rng.choice(SPELLINGS), "cwds": picks}
+
+
+def _cut(name: str, fraction: float) -> str | None:
+    """A proper, non-empty prefix of a name."""
+    if len(name) < 2:
+        return None
+    return name[:1 + int(fraction * (len(name) - 1)) % (len(name) - 1)]
+
+
+class Place:
+    """Where a tree lies: base directory, search paths, package top (directory or file), files written."""
+
+    def __init__(self, base: str | None, parent: str, roots: list[str], package: str, files: set[str], layout: dict) -> None:
+        self.base, self.parent, self.roots, self.package, self.files, self.layout = base, parent, roots, package, files, layout
+        top_dir = os.path.join(roots[0], package)
+        self.top_dir = top_dir if os.path.isdir(top_dir) else None
+
+    def directory(self, position: str) -> str | None:  # noqa: C901, PLR0911, PLR0912
+        """The directory a position names (None when the layout has no such place)."""
+        lay, root, parent = self.layout, self.roots[0], self.parent
+        if position == "search-path":
+            return root
+        if position == "other-search-path":
+            return self.roots[-1] if len(self.roots) > 1 else None
+        if position == "parent":
+            return parent
+        if position == "fs-root":
+            return os.path.abspath(os.sep)
+        if position == "inside-package":
+            return self.top_dir
+        if self.base is None:            # a library package: existing directories only
+            return tempfile.gettempdir() if position == "unrelated" else None
+        if position == "ancestor":
+            return os.path.dirname(parent)
+        if position == "unrelated":
+            return os.path.join(self.base, "elsewhere")
+        if position == "inside-subpackage":
+            subs = sorted({os.path.dirname(f) for f in self.files if self.top_dir and f.startswith(self.top_dir + os.sep)} - {self.top_dir})
+            return subs[-1] if subs else None
+        if position == "non-package-child":
+            return os.path.join(self.top_dir, "_wd") if self.top_dir else None
+        if position == "symlink-to-search-path":
+            return os.path.join(self.base, "ln-sp")
+        if position == "symlink-to-parent":
+            return os.path.join(self.base, "ln-parent")
+        if position in ("search-path-name-prefix", "search-path-name-extension"):
+            name = os.path.basename(root)
+            other = _cut(name, lay["cut"]) if position.endswith("prefix") else name + lay["extension"]
+            taken = {os.path.basename(r) for r in self.roots}
+            return os.path.join(parent, other) if other and other not in taken else None
+        if position in ("parent-name-prefix", "parent-name-extension"):
+            name = os.path.basename(parent)
+            other = _cut(name, lay["cut"]) if position.endswith("prefix") else name + lay["extension"]
+            return os.path.join(os.path.dirname(parent), other) if other else None
+        if position in ("package-name-prefix", "package-name-extension"):
+            other = _cut(self.package, lay["cut"]) if position.endswith("prefix") else self.package + lay["package_extension"]
+            return os.path.join(root, other) if other else None
+        if position == "module-stem-dir":
+            # a directory named like a module file without its suffix, next to that file (top-level module `m.py` -> `m/`)
+            mods = sorted(f for f in self.files if os.path.basename(f).split(".")[0] != "__init__" and f.startswith(root + os.sep))
+            mods = [f for f in mods if not os.path.exists(f.rsplit(".", 1)[0])]
+            return mods[int(lay["stem_of"] * len(mods)) % len(mods)].rsplit(".", 1)[0] if mods else None
+        raise ValueError(position)
+
+    def enter(self, position: str) -> str | None:
+        """chdir to a position (creating the directory when the layout does not have it yet); the directory entered, or None."""
+        target = self.directory(position)
+        if target is None:
+            return None
+        if position.startswith("symlink-to-") and not os.path.lexists(target):
+            os.symlink(self.roots[0] if position.endswith("search-path") else self.parent, target)
+        if os.path.lexists(target) and not os.path.isdir(target):
+            return None                     # the name is taken by a file (`m.py` is a module, not a place to stand in)
+        os.makedirs(target, exist_ok=True)
+        os.chdir(target)
+        return target
+
+    def spelled_roots(self, spelling: str) -> list[str]:
+        """The search paths as handed to the loader, relative spellings taken from the current working directory."""
+        out = []
+        for i, root in enumerate(self.roots):
+            if spelling == "relative":
+                out.append(os.path.relpath(root))
+            elif spelling == "redundant":
+                out.append(os.path.join(os.path.relpath(self.parent), os.pardir, os.path.basename(self.parent), os.curdir, os.path.basename(root)))
+            elif spelling == "symlink" and i == 0 and self.base is not None:
+                link = os.path.join(self.base, "ln-sp")
+                if not os.path.lexists(link):
+                    os.symlink(root, link)
+                out.append(link)
+            elif spelling == "trailing-slash":
+                out.append(root + os.sep)
+            else:
+                out.append(root)
+        return out
+
+
+@contextmanager
+def located(case: dict):
+    """Write the roots of a case into its directory layout; restore the working directory and purge imported modules afterwards."""
+    import importlib
+    import shutil
+
+    base = os.path.realpath(tempfile.mkdtemp(prefix="vfc09-"))
+    old_cwd = os.getcwd()
+    lay = case["layout"]
+    try:
+        parent = os.path.join(base, *lay["chain"])
+        roots, written = [], set()
+        for name, files in zip(lay["roots"], case["roots"]):
+            root = os.path.join(parent, name)
+            os.makedirs(root)
+            for rel, content in files.items():
+                p = os.path.join(root, rel)
+                os.makedirs(os.path.dirname(p), exist_ok=True)
+                with open(p, "w", encoding="utf8", errors="surrogatepass") as fh:
+                    fh.write(content)
+                written.add(p)
+            roots.append(root)
+        yield Place(base, parent, roots, case["package"], written, lay)
+    finally:
+        os.chdir(old_cwd)
+        pkg = case.get("package", "")
+        for k in [k for k in sys.modules if k == pkg or k.startswith(pkg + ".")]:
+            del sys.modules[k]
+        importlib.invalidate_caches()
+        shutil.rmtree(base, ignore_errors=True)
+
+
+def library_place(mod, package: str) -> Place | None:  # noqa: ANN001
+    """The place of a package that was found on sys.path (used to choose working directories, never to judge)."""
+    fp = getattr(mod, "_filepath", None)
+    if fp is None or isinstance(fp, list):
+        return None
+    fp = str(fp)
+    root = os.path.dirname(os.path.dirname(fp)) if os.path.basename(fp).split(".")[0] == "__init__" else os.path.dirname(fp)
+    return Place(None, os.path.dirname(root), [root], package, set(), {})
+
+
+def _below(path: str, directory: str) -> bool:
+    """Component-wise containment (or equality) of absolute, normalised paths."""
+    try:
+        return os.path.commonpath([path, directory]) == directory
+    except ValueError:
+        return False
+
+
+def expected_relative_filepath(filepath, cwd: str):  # noqa: ANN001, ANN201
+    """Reference model of `relative_filepath`: (expected value,) or () when the documented answer is an exception."""
+    if isinstance(filepath, list):
+        for portion in filepath:
+            if _below(portion, cwd):
+                return (os.path.relpath(portion, cwd),)
+        return ()
+    return (os.path.relpath(filepath, cwd),) if _below(filepath, cwd) else (filepath,)
+
+
+def check_location_members(rec, doc: dict, cwd: str, place: Place, position: str) -> list:  # noqa: ANN001, C901
+    """Reference model over os.path for filepath / relative_filepath / relative_package_filepath of every object of a dump."""
+    problems = []
+    n = 0
+    seen: set = set()
+    top = doc.get("filepath")
+
+    def bad(what: str, ptr: str, observed, expected, finding: str | None = None) -> None:  # noqa: ANN001
+        if len(problems) < 5:
+            problems.append(c08.Problem(f"{what} (object {ptr or '/'}, dumped from working directory '{position}')",
+                                        {"observed": observed, "cwd": cwd, "position": position}, expected, finding))
+
+    for path, obj in objects(doc):
+        if obj.get("kind") == "alias" or "filepath" not in obj:
+            continue
+        n += 1
+        fp, rel, pkgrel = obj.get("filepath"), obj.get("relative_filepath"), obj.get("relative_package_filepath")
+        key = (tuple(fp) if isinstance(fp, list) else fp, rel, pkgrel)
+        if key in seen:              # the objects of one module share their location members: judge each combination once
+            continue
+        seen.add(key)
+        ptr = pointer(path)
+        portions = fp if isinstance(fp, list) else [fp]
+        if not portions or not all(isinstance(x, str) and os.path.isabs(x) for x in portions):
+            bad("filepath is not an absolute path", ptr, fp, "absolute path(s) of the defining file")
+            continue
+        if isinstance(fp, list):
+            ok = all(os.path.isdir(x) and any(_below(x, r) for r in place.roots) for x in portions)
+        else:
+            ok = fp in place.files if place.base is not None else os.path.isfile(fp)
+        if not ok:
+            bad("filepath does not name a file of the package", ptr, fp, "one of the files the package was loaded from")
+            continue
+        want = expected_relative_filepath(fp, cwd)
+        if want and rel != want[0]:
+            bad("relative_filepath is not the file path relative to the working directory (absolute when the file is not below it)", ptr,
+                rel, want[0])
+        if not want:
+            bad("relative_filepath was computed although no portion of the namespace package lies below the working directory", ptr, rel,
+                "ValueError")
+        home = next((r for r in place.roots if _below(portions[0], r)), None)
+        want_pkg = os.path.relpath(portions[0], home) if home else None
+        if want_pkg is None or pkgrel != want_pkg:
+            finding = None
+            if (isinstance(fp, str) and fp == top and os.path.basename(fp).split(".")[0] != "__init__" and want_pkg == os.path.basename(fp)
+                    and pkgrel == os.path.join(os.path.basename(os.path.dirname(fp)), os.path.basename(fp))):
+                finding = ID_TOP_MODULE
+            bad("relative_package_filepath is not the file path relative to the search path of the package", ptr, pkgrel,
+                want_pkg or "a path relative to the search path the package was found in", finding)
+    rec.count("location_members_checked_against_model", n)
+    return problems
+
+
+def strip_relative(doc: dict) -> None:
+    """Remove the one member that is allowed to depend on the working directory, in place."""
+    for _path, obj in objects(doc):
+        obj.pop("relative_filepath", None)
+
+
+def dump_everywhere(rec, case: dict, mod, place: Place, tags: tuple) -> None:  # noqa: ANN001, C901, PLR0912, PLR0915
+    """Dump one loaded tree from every working directory of the case; judge each dump and their agreement."""
+    problems: list = []
+    reference = None            # (position, stripped document, valid as a whole)
+    nontrivial = False
+    done = 0
+    for position in case["cwds"]:
+        entered = place.enter(position)
+        if entered is None:
+            rec.count("working_directories_not_applicable")
+            continue
+        cwd = os.getcwd()
+        where = f" when the working directory is '{position}'"
+        try:
+            text = mod.as_json(full=True)
+        except Exception as exc:  # noqa: BLE001
+            rec.count("full_dump_failures")
+            problem = dump_failure(exc, mod, where)
+            problem.observed["position"] = position
+            problems.append(problem)
+            continue
+        doc = json.loads(text)
+        done += 1
+        rec.count("location_dumps")
+        rec.count("location_dumps_from:" + position)
+        for group, name in ((PREFIX_POSITIONS, "name_prefix_sibling"), (EXTENSION_POSITIONS, "name_extension_sibling"),
+                            (INSIDE_POSITIONS, "inside_the_package"), (SYMLINK_POSITIONS, "through_symlink")):  # noqa: E501
+            if position in group:
+                rec.count(("location_dumps_" if name.startswith("through") else "location_dumps_from_") + name)
+        if reference is None:
+            found, nontrivial, inc, valid = validate(rec, case, doc)
+            if inc:
+                rec.inconclusive(case, inc)
+                return
+            problems.extend(found)
+            if not found and is_clean(case):
+                rec.count("clean_domain_documents_valid")
+        elif done == 2:
+            valid = next(iter(validator().iter_errors(doc)), None) is None
+            rec.count("location_dumps_validated")
+            if valid != reference[2]:
+                problems.append(c08.Problem(f"the dump taken{where} is {'valid' if valid else 'not valid'} against the schema, the one taken from "
+                                            f"'{reference[0]}' is {'valid' if reference[2] else 'not valid'}", {"position": position, "cwd": cwd}))
+        problems.extend(check_location_members(rec, doc, cwd, place, position))
+        strip_relative(doc)
+        if reference is None:
+            reference = (position, json.dumps(doc), valid)
+        else:
+            rec.count("location_dumps_compared")
+            b = json.dumps(doc)
+            if b != reference[1]:
+                d = c08.first_difference(reference[1], b)
+                problems.append(c08.Problem(f"apart from relative_filepath, the dump taken{where} differs from the one taken from '{reference[0]}'",
+                                            {"position": position, "here": d.get("other"), "at": d.get("pointer", d.get("offset"))},
+                                            {"there": d.get("original")}))
+    if reference is None and not problems:
+        rec.inconclusive(case, "no working directory of the case was applicable")
+        return
+    _report(rec, case, problems, nontrivial, tags)
+
+
+def run_case(rec, case: dict) -> None:  # noqa: ANN001, C901
     tags = (f"agent:{case.get('agent', 'static')}", "resolved" if case.get("resolve") else "unresolved", f"source:{case.get('source', '?')}",
             f"parser:{case.get('parser')}")
+
+    def loaded() -> None:
+        rec.count({"static": "static_documents", "dynamic": "dynamic_documents"}[case.get("agent", "static")])
+        if case.get("resolve"):
+            rec.count("resolved_documents")
+        if case.get("parser"):
+            rec.count("parsed_docstring_documents")
+        src = case.get("source")
+        if src in ("namespace", "stdlib", "own"):
+            rec.count({"namespace": "namespace_documents", "stdlib": "stdlib_documents", "own": "own_package_documents"}[src])
+
+    def refused(exc: BaseException) -> None:
+        rec.skip(f"loader refused the tree ({type(exc).__name__})")
+        rec.count("load_failures:" + case.get("source", "?") + ":" + case.get("agent", "static"))
+
+    old_cwd = os.getcwd()
     try:
+        if "layout" in case:
+            with case_watchdog(300), located(case) as place:
+                if place.enter(case.get("load_from", "parent")) is None:
+                    place.enter("parent")
+                try:
+                    mod, _loader = c08.load_tree(case, place.spelled_roots(case.get("spelling", "absolute")))
+                except Exception as exc:  # noqa: BLE001
+                    refused(exc)
+                    return
+                loaded()
+                if case.get("spelling", "absolute") != "absolute":
+                    rec.count("trees_loaded_with_respelled_search_path")
+                rec.count("trees_loaded_from:" + case.get("load_from", "parent"))
+                if place.top_dir is None:
+                    rec.count("top_level_file_module_documents")
+                dump_everywhere(rec, case, mod, place, tags)
+            return
         with case_watchdog(300), c08.materialised(case) as roots:
             try:
                 mod, _loader = c08.load_tree(case, roots)
             except Exception as exc:  # noqa: BLE001
-                rec.skip(f"loader refused the tree ({type(exc).__name__})")
-                rec.count("load_failures:" + case.get("source", "?") + ":" + case.get("agent", "static"))
+                refused(exc)
                 return
-            rec.count({"static": "static_documents", "dynamic": "dynamic_documents"}[case.get("agent", "static")])
-            if case.get("resolve"):
-                rec.count("resolved_documents")
-            if case.get("parser"):
-                rec.count("parsed_docstring_documents")
-            src = case.get("source")
-            if src in ("namespace", "stdlib", "own"):
-                rec.count({"namespace": "namespace_documents", "stdlib": "stdlib_documents", "own": "own_package_documents"}[src])
-            judge(rec, case, mod, tags)
+            loaded()
+            place = library_place(mod, case["package"]) if case.get("cwds") else None
+            if place is not None:
+                dump_everywhere(rec, case, mod, place, tags)
+            else:
+                judge(rec, case, mod, tags)
     except Exception as exc:  # noqa: BLE001
         rec.fail_exc(case, f"{type(exc).__name__} escaped the harness around one document", exc)
+    finally:
+        os.chdir(old_cwd)
 
 
 # -- workload ---------------------------------------------------------------------------------------------------------
@@ -314,7 +739,7 @@ def generated_cases(rng: random.Random, spec: dict, uid: str):  # noqa: ANN201
             yield {"kind": "files", "source": "static-rich", "roots": [files], "package": name, "agent": "static", "resolve": not resolve,
                    "implicit": rng.random() < 0.5, "parser": None}
     # structural modules of the C01 generator: duplicates, re-assigned documented attributes (forwarded docstrings),
-    # wrappers, instance attributes, overloads, properties with setters - as one-module packages
+    # wrappers, instance attributes, overloads, properties with setters - as one-module packages and as top-level file modules
     from vf.gen.modules import Gen
 
     for i in range(spec.get("structural_pkgs", 0)):
@@ -324,8 +749,8 @@ def generated_cases(rng: random.Random, spec: dict, uid: str):  # noqa: ANN201
             compile(src, "<c09>", "exec")
         except SyntaxError:
             continue
-        yield {"kind": "files", "source": "static-structural", "roots": [{f"{name}/__init__.py": src}], "package": name,
-               "agent": "static", "resolve": False, "implicit": False, "parser": rng.choice([None, "google"])}
+        yield {"kind": "files", "source": "static-structural", "roots": [{(f"{name}/__init__.py" if i % 2 else f"{name}.py"): src}],
+               "package": name, "agent": "static", "resolve": False, "implicit": False, "parser": rng.choice([None, "google"])}
     for i in range(spec["importable_pkgs"]):
         name = f"wi{uid}_{i}"
         files, _ = rich_modules.gen_package(rng, name, flavour="importable", depth=rng.randint(1, depth))
@@ -336,22 +761,24 @@ def generated_cases(rng: random.Random, spec: dict, uid: str):  # noqa: ANN201
         name = f"wn{uid}_{i}"
         roots, _ = rich_modules.gen_namespace(rng, name, depth=rng.randint(1, depth))
         yield {"kind": "files", "source": "namespace", "roots": roots, "package": name, "agent": "static", "resolve": rng.random() < 0.5,
-               "implicit": True, "cwd": "above", "parser": rng.choice(PARSERS)}
+               "implicit": True, "parser": rng.choice(PARSERS)}
 
 
 def run_shard(spec: dict, rec) -> None:  # noqa: ANN001
     rng = random.Random(spec["seed"])
+    where = random.Random(spec["seed"] * 7919 + 17)      # directory layouts and working directories: a stream of their own
     uid = f"{spec['seed'] % 1000003}"
     validator()
     for name in spec["own"]:
         for resolve, parser in ((False, None), (True, "google")):
             run_case(rec, {"kind": "named", "source": "own", "package": name, "agent": "static", "resolve": resolve, "implicit": False,
-                           "parser": parser})
+                           "parser": parser, "cwds": where.sample(NAMED_POSITIONS, 3)})
     for name in spec["stdlib"]:
         run_case(rec, {"kind": "named", "source": "stdlib", "package": name, "agent": "static", "resolve": rng.random() < 0.5,
-                       "implicit": False, "parser": rng.choice([None, None, "google", "numpy", "sphinx"])})
+                       "implicit": False, "parser": rng.choice([None, None, "google", "numpy", "sphinx"]),
+                       "cwds": where.sample(NAMED_POSITIONS, 4)})
     for case in generated_cases(rng, spec, uid):
-        run_case(rec, case)
+        run_case(rec, located_case(where, case))
 
 
 def run_replay(inp: dict, rec) -> None:  # noqa: ANN001
